@@ -19,7 +19,6 @@ RULE = ("Exhaustive: every (prefix1, prefix2, unit, power) with 21 prefixes (inc
         "non-unit strings.  A case is distinct by (law, prefix-emptiness pattern, unit, power) resp. (law, string); "
         "trivial = identical strings for scaling (counted but not distinct).")
 ASSUMPTIONS = ["the supported SI tables are the 20 prefixes and 31 unit symbols of nixio 1.5 (restated in the oracle)",
-               "'m' vs 'm^1' (implicit vs explicit power one) is not judged for scalability",
                "relative tolerance 1e-12 on scaling factors (all expected values are exact powers of ten)"]
 
 PREF = {"": 0, "Y": 24, "Z": 21, "E": 18, "P": 15, "T": 12, "G": 9, "M": 6, "k": 3, "h": 2, "da": 1,
@@ -111,14 +110,34 @@ def run_shard(spec, ctx):
                                   {"s": s, "expected": [p, u, w], "got": list(got)}, rep)
         ctx.count("atomic_strings_enumerated", len(PREF) * len(POW))
         # ---- exhaustive scaling grid --------------------------------------------
-        for w in POW:
-            for p1, p2 in itertools.product(plist, plist):
-                a, b = mk(p1, u, w), mk(p2, u, w)
-                if p1 + u in amb or p2 + u in amb:
-                    ctx.count("skipped_ambiguous")
-                    continue
-                check_scaling_pair(units, ctx, a, b, p1, p2, u, w, InvalidUnit)
+        # (in an order drawn per unit and shard: a conversion must not depend on which conversions were asked for before it)
+        combos = [(w, p1, p2) for w in POW for p1, p2 in itertools.product(plist, plist)]
+        rng.shuffle(combos)
+        for w, p1, p2 in combos:
+            a, b = mk(p1, u, w), mk(p2, u, w)
+            if p1 + u in amb or p2 + u in amb:
+                ctx.count("skipped_ambiguous")
+                continue
+            check_scaling_pair(units, ctx, a, b, p1, p2, u, w, InvalidUnit)
         ctx.count("scaling_pairs_enumerated", len(POW) * len(plist) ** 2)
+        # the same power spelled differently ("" = "1", "2" = "+2") is the same power
+        for w1, w2 in (("", "1"), ("1", ""), ("2", "+2"), ("+2", "2")):
+            for p1, p2 in itertools.product(plist, plist):
+                if p1 + u in amb or p2 + u in amb:
+                    continue
+                a, b = mk(p1, u, w1), mk(p2, u, w2)
+                exp = 10.0 ** ((PREF[p1] - PREF[p2]) * pw(w1))
+                ctx.case(("respelled_power", pattern(p1, p2), u, w1, w2))
+                rep = {"kind": "pair", "a": a, "b": b, "expect": exp}
+                try:
+                    if not units.scalable(a, b):
+                        ctx.violation("not_scalable:same_power_spelled_differently", {"a": a, "b": b}, rep)
+                        continue
+                    got = units.scaling(a, b)
+                    if not math.isclose(got, exp, rel_tol=1e-12):
+                        ctx.violation("scaling_wrong:same_power_spelled_differently", {"a": a, "b": b, "expected": exp, "got": got}, rep)
+                except Exception as e:
+                    ctx.violation("scaling_raises:same_power_spelled_differently:%s" % type(e).__name__, {"a": a, "b": b, "err": repr(e)}, rep)
     ctx.count("exhaustive_grid_complete")
     # ---- sampled laws ---------------------------------------------------------------
     n = spec["n_rand"]
